@@ -15,6 +15,7 @@ def check(fb, ctx):
     )
     chain.needs_secret_rules(fb, ctx)
     chain.seal_rules(fb, ctx)
+    chain.last_block_rules(fb, ctx)
     chain.layout_rules(fb, ctx, only=("generate_seal_signature_payload_v0",))
     chain.verify_inner_rules(fb, ctx)
     for fn in ("biscuit_auth::token::Biscuit::seal", "biscuit_auth::token::unverified::UnverifiedBiscuit::seal"):
